@@ -393,8 +393,8 @@ static void fixed_cases(Rng & rng) {
 }
 
 static void alg_case(Rng & rng, const std::string & tier) {
-    (void)tier;
-    F::Factors sp = randSpace(rng, 4, 3, 54);
+    bool th = tier == "thorough";
+    F::Factors sp = th ? randSpace(rng, 5, 4, 128) : randSpace(rng, 4, 3, 54);
     size_t n = sp.size();
     auto t1 = randTag(rng, n);
     auto t2 = relTag(rng, n, t1);
@@ -458,8 +458,10 @@ static void makeDDN(Rng & rng, DDNCase & c, bool spanAll) {
     for (size_t i = 0; i < c.S.size(); ++i) c.T.push_back(randStochastic(rng, c.g->getSize(i), c.S[i]));
 }
 static void ddn_case(Rng & rng, const std::string & tier) {
-    (void)tier;
-    DDNCase c; c.S = randSpace(rng, 3, 3, 12); c.A = randSpace(rng, 2, 3, 6);
+    bool th = tier == "thorough";
+    DDNCase c;
+    if (th) { c.S = randSpace(rng, 4, 3, 18); c.A = randSpace(rng, 3, 3, 8); }
+    else { c.S = randSpace(rng, 3, 3, 12); c.A = randSpace(rng, 2, 3, 6); }
     makeDDN(rng, c, false);
     F::DDN ddn{*c.g, c.T};
     auto rhs = randBF(rng, c.S, randTag(rng, c.S.size()));
@@ -650,9 +652,9 @@ static void piek_cases(Rng & rng, const F::Factors & sp) {
 }
 
 static const int kRandomQuick = 150, kRandomThorough = 3000;
-static const int kAlgQuick = 250, kAlgThorough = 6000;
-static const int kDdnQuick = 60, kDdnThorough = 1200;
-static const int kEqQuick = 60, kEqThorough = 600;
+static const int kAlgQuick = 400, kAlgThorough = 30000;
+static const int kDdnQuick = 100, kDdnThorough = 6000;
+static const int kEqQuick = 100, kEqThorough = 3000;
 static long g_nSpaces = 0, g_nRandom = 0, g_nAlg = 0, g_nDdn = 0, g_nEq = 0;
 
 long verif::verif_ncases(const std::string & tier) {
